@@ -68,6 +68,19 @@ def splice_contracts(scratch_repo, log):
             fh.write("\n".join(lines))
 
 
+INCLUDE = re.compile(r"^//@include\s+(\S+)\s*$", re.M)
+
+
+def expand_includes(body, log, crate, src):
+    def sub(m):
+        p = os.path.join(CONTRACTS, m.group(1))
+        with open(p) as fh:
+            txt = fh.read()
+        log.append("R1 %s/%s: included shared contract text %s" % (crate, src, m.group(1)))
+        return txt
+    return INCLUDE.sub(sub, body)
+
+
 def append_modules(scratch_repo, extra_text, log):
     """R1. extra_text: {(crate, src_file): generated text to add inside the module}"""
     done = set()
@@ -84,6 +97,7 @@ def append_modules(scratch_repo, extra_text, log):
         if path:
             with open(path) as fh:
                 body = fh.read()
+            body = expand_includes(body, log, crate, src)
         gen = extra_text.get((crate, src), "")
         p = os.path.join(scratch_repo, crate, src)
         if not os.path.exists(p):
